@@ -551,7 +551,7 @@ impl Parser {
                     left.clone().unwrap(),
                     match not {
                         false => Op::Gte,
-                        true => Op::Lte,
+                        true => Op::Lt,
                     },
                     left_between.unwrap(),
                 );
@@ -559,7 +559,7 @@ impl Parser {
                     left.unwrap(),
                     match not {
                         false => Op::Lte,
-                        true => Op::Gte,
+                        true => Op::Gt,
                     },
                     right_between.unwrap(),
                 );
@@ -978,6 +978,13 @@ impl Parser {
         if let &Some(op) = &expr.op {
             result.op = Some(Op::negate(op));
         }
+
+        // De Morgan: the negation of a conjunction is the disjunction of the negations
+        result.logical_op = match &expr.logical_op {
+            Some(LogicalOp::And) => Some(LogicalOp::Or),
+            Some(LogicalOp::Or) => Some(LogicalOp::And),
+            None => None,
+        };
 
         if let Some(right) = &expr.right {
             result.right = Some(Box::from(Self::negate_expr_op(right)));
